@@ -68,7 +68,7 @@ DEFAULT_WEIGHTS = dict(
 class Walker(object):
     def __init__(self, seed, profile=3, weights=None, naddr=1, keepalives=(0, 0, 0, 2, 5, 60),
                  clean=None, versions=('311', '311', '31'), max_payload=None, allow_garbage=True,
-                 allow_api_after_lost=True):
+                 allow_api_after_lost=True, reconnect_idle_again=False):
         self.rng = REAL_RANDOM(seed)
         self.profile = profile
         self.weights = dict(DEFAULT_WEIGHTS)
@@ -81,6 +81,8 @@ class Walker(object):
         self.max_payload = max_payload
         self.allow_garbage = allow_garbage
         self.allow_api_after_lost = allow_api_after_lost
+        self.reconnect_idle_again = reconnect_idle_again     # connect() again on a protocol that was already connected once (known finding F-16b)
+        self.ever_connected = set()
         self.world = RealWorld(profile)
         self.lines = ['factory %d' % profile]
         self.trace = [(self.lines[0], [])]
@@ -144,7 +146,10 @@ class Walker(object):
             c = [p for p in live if st[p] in want]
             if c and self.rng.random() < 0.93:
                 return self.rng.choice(c)
-        pool = live if (live and (self.rng.random() < 0.9 or not self.allow_api_after_lost)) else list(range(self.nprotos))
+        if not self.allow_api_after_lost:
+            pool = live
+        else:
+            pool = live if (live and self.rng.random() < 0.9) else list(range(self.nprotos))
         if not pool:
             return None
         return self.rng.choice(pool)
@@ -192,6 +197,8 @@ class Walker(object):
                 self.do('sethandlers %d %d' % (self.nprotos - 1, rng.choice([7, 7, 7, 5, 3, 1, 0])))
             if rng.random() < 0.85:
                 self.connect(self.nprotos - 1)
+            return
+        if kind not in ('fire', 'lost', 'jit') and not self.live() and not self.allow_api_after_lost:
             return
         if kind == 'sethandlers':
             p = self.pick_proto()
@@ -279,7 +286,8 @@ class Walker(object):
             if e:
                 self.do('fire %d' % rng.choice(e)._vid)
         elif kind == 'lost':
-            live = self.live()
+            # Env: a connection is lost only after connect() has been called on it (see DESIGN.md, F-15)
+            live = [p for p in self.live() if p in self.ever_connected]
             if live:
                 p = rng.choice(live)
                 self.do('lost %d %s' % (p, rng.choice(['done', 'lostc', 'aborted'])))
@@ -341,6 +349,8 @@ class Walker(object):
         rng = self.rng
         if p is None:
             return
+        if (p in self.ever_connected or p in self.lost) and not self.reconnect_idle_again:
+            return
         ka = rng.choice(self.keepalives)
         ver = rng.choice(self.versions)
         clean = self.clean if self.clean is not None else rng.choice([0, 1])
@@ -365,7 +375,9 @@ class Walker(object):
                 extra = ' %s %s %d 0' % (s_tok('w'), s_tok('m'), rng.choice([3, -1]))
             else:
                 ver = '31'; cid = 'c' * 24
-        self.do('connect %d %s %d %s %d%s' % (p, s_tok(cid), ka, ver, clean, extra))
+        obs = self.do('connect %d %s %d %s %d%s' % (p, s_tok(cid), ka, ver, clean, extra))
+        if any(o.startswith('ret pending') for o in obs):
+            self.ever_connected.add(p)
 
     def run(self, nsteps):
         for _ in range(nsteps):
